@@ -2,7 +2,11 @@
 """Regenerates MANIFEST.json from checks.json (single source of truth for commands and levels)."""
 import json, os, subprocess
 ROOT = os.path.dirname(os.path.abspath(__file__))
-cfg = json.load(open(os.path.join(ROOT, "checks.json")))
+cfg = {"properties": {}}
+for d in sorted(os.listdir(os.path.join(ROOT, "props"))):
+    f = os.path.join(ROOT, "props", d, "check.json")
+    if os.path.exists(f):
+        cfg["properties"].update(json.load(open(f))["properties"])
 props = [json.loads(l) for l in open(os.path.join(ROOT, "properties.jsonl")) if l.strip()]
 hooks = subprocess.run(["git", "-C", "/repo", "log", "--format=%H %s"], capture_output=True, text=True).stdout.splitlines()
 hook_commits = [l.split()[0] for l in hooks if " verif hook" in l]
